@@ -87,6 +87,35 @@ def make_input(net, perm=None):
         k += 1
         nz = 0.0 if net["noise"] == 0 else ((k * (net["noise"] + 2)) % 7 - 3) / 1000.0
         obs.append("<obs>\n<hdiff> <from>%s</from> <to>%s</to> <val>%.8f</val> <stdev>2</stdev> </hdiff>\n</obs>" % (ids[a - 1], ids[b - 1], blh[b - 1][2] - blh[a - 1][2] + nz))
+    def local(a, b):
+        """vector a -> b in the north-east-up frame of a"""
+        ba, la = blh[a - 1][0], blh[a - 1][1]
+        d = [xyz[b - 1][j] - xyz[a - 1][j] for j in range(3)]
+        sb, cb, sl, cl = math.sin(ba), math.cos(ba), math.sin(la), math.cos(la)
+        return (-sb * cl * d[0] - sb * sl * d[1] + cb * d[2], -sl * d[0] + cl * d[1], cb * cl * d[0] + cb * sl * d[1] + sb * d[2])
+    R2G = 200.0 / math.pi
+    for (a, b) in net.get("zeniths", []):
+        k += 1
+        nz = 0.0 if net["noise"] == 0 else ((k * (net["noise"] + 2)) % 7 - 3) * 1e-4
+        n_, e_, u_ = local(a, b)
+        obs.append("<obs>\n<zenith> <from>%s</from> <to>%s</to> <val>%.10f</val> <stdev>5</stdev> </zenith>\n</obs>" % (ids[a - 1], ids[b - 1], math.atan2(math.hypot(n_, e_), u_) * R2G + nz))
+    for (a, l_, r_) in net.get("angles", []):
+        k += 1
+        nz = 0.0 if net["noise"] == 0 else ((k * (net["noise"] + 2)) % 7 - 3) * 1e-4
+        nl, el, _ = local(a, l_)
+        nr, er, _ = local(a, r_)
+        ang = (math.atan2(er, nr) - math.atan2(el, nl)) % (2 * math.pi)
+        obs.append("<obs>\n<angle> <from>%s</from> <left>%s</left> <right>%s</right> <val>%.10f</val> <stdev>5</stdev> </angle>\n</obs>" % (ids[a - 1], ids[l_ - 1], ids[r_ - 1], ang * R2G + nz))
+    for (a, b) in net.get("azimuths", []):
+        k += 1
+        nz = 0.0 if net["noise"] == 0 else ((k * (net["noise"] + 2)) % 7 - 3) * 1e-4
+        n_, e_, _ = local(a, b)
+        obs.append("<obs>\n<azimuth> <from>%s</from> <to>%s</to> <val>%.10f</val> <stdev>5</stdev> </azimuth>\n</obs>" % (ids[a - 1], ids[b - 1], (math.atan2(e_, n_) % (2 * math.pi)) * R2G + nz))
+    for a in net.get("xyzobs", []):
+        k += 1
+        nz = 0.0 if net["noise"] == 0 else ((k * (net["noise"] + 2)) % 7 - 3) / 1000.0
+        obs.append("<obs>\n<xyz> <id>%s</id> <x>%.5f</x> <y>%.5f</y> <z>%.5f</z> </xyz>\n<cov-mat> <dim>3</dim> <band>1</band> <flt>4</flt> <flt>1</flt> <flt>5</flt> <flt>-1</flt> <flt>6</flt> </cov-mat>\n</obs>" % (
+            ids[a - 1], xyz[a - 1][0] + nz, xyz[a - 1][1] - nz, xyz[a - 1][2] + nz))
     if perm:
         rnd = random.Random(perm)
         rnd.shuffle(obs)
@@ -131,7 +160,7 @@ def parse_result(text):
 
 def run(ctx):
     q = ctx.quick
-    consts = {"Keep": 5 if q else 1, "Seed": ctx.seed}
+    consts = {"Keep": 3 if q else 1, "Keep2": 211 if q else 97, "Seed": ctx.seed}
     cfg = os.path.join(vlib.SPEC, "_g3.cfg")
     with open(cfg, "w") as f:
         f.write("SPECIFICATION Spec\nCONSTANTS\n" + "".join("  %s = %s\n" % kv for kv in consts.items()) + "INVARIANT Emit\nCHECK_DEADLOCK FALSE\n")
@@ -201,9 +230,11 @@ def run(ctx):
                         report("truth_missing", "point %s missing in the results" % pid)
                         continue
                     for j, c in enumerate("xyz"):
-                        if abs(p[c] - xyz[i][j]) > 1e-4:            # results are printed with 5 decimals
-                            report("truth", "point %s %s adjusted %.5f, generating %d" % (pid, c, p[c], xyz[i][j]))
-                if st["pvv"] > 1e-5:
+                        if abs(p[c] - xyz[i][j]) > 2e-6:            # one linearization: second-order effects of the 3 cm displacement stay below 1e-7 m
+                            report("truth", "point %s %s adjusted %.7f, generating %d" % (pid, c, p[c], xyz[i][j]))
+                # one linearization at given coordinates 3 cm off: the terms gama neglects (tilt of the local vertical when the
+                # station moves, second-order terms) leave residuals of about 0.003 cc, i.e. a sum of squares below 1e-4
+                if st["pvv"] > (1e-3 if net["displ"] else 1e-5):
                     report("truth_pvv", "sum of squares %r for consistent vectors" % st["pvv"])
             if perm == 0 and alg == "envelope":
                 envref = (alg, perm, res)
@@ -252,6 +283,6 @@ def run(ctx):
         ctx.sample({k: nets[0][k] for k in ("np", "place", "vectors", "dists", "heights", "hdiffs", "status", "displ", "cov", "noise", "parameters", "equations", "defect")})
     ctx.assume("ECEF base points are computed from (B, L, H) by the textbook formula and rounded to integer metres; only vector observations are generated")
     return {"evaluations": len(tasks) + nadj, "distinct_nontrivial": len(nets),
-            "rule": "networks = states of G3Session.tla (thinned by Keep = %s, then evenly sampled); each is run with 4 algorithms + one permutation of the records, "
+            "rule": "networks = states of G3Session.tla (thinned by Keep = %s / Keep2, then evenly sampled); each is run with 4 algorithms + one permutation of the records, "
                     "and its project equations are adjusted by Adj with 4 algorithms; all networks have >= 3 points" % consts["Keep"],
             "tlc_states": r.distinct, "adj_replays": nadj, "exhaustive": False}
